@@ -159,7 +159,7 @@ def run(ctx):
     for s in ([1.0, 0.37] if not thorough else [1.0, 0.37, 2.0]):
         w = Walker(ctx, g, dc.DomainAdapter(info, s, ctx.seed, heavy=True, which=('coeffs', 'transform')),
                    'replay.prefactors.scale%g' % s)
-        ne = w.cover_edges()
+        ne = w.cover_edges(stutter=True)
         ctx.traces += ne
         ctx.stage('replay.prefactors', scale=s, edges_replayed=ne, graph_edges=g.n_edges, transform_batteries=w.a.batteries)
     if mono(info['fwd']) != 4 * math.pi or abs(mono(info['bwd']) - 1 / (2 * math.pi ** 2)) > 1e-18:
